@@ -3,6 +3,7 @@ package main
 import (
 	"encoding/json"
 	"fmt"
+	"net"
 	"os"
 	"path/filepath"
 	"strings"
@@ -217,6 +218,18 @@ func init() {
 		for i := 0; i < n; i++ {
 			tagCase(cw, rscp.Tag(g.r.Uint32()), "random-tag")
 		}
+		// neighbours of known tags in the number space (other direction bit, ±1, next group): unknown ones have no
+		// name, no declared type and are written as numbers
+		for i, t := range rscp.TagValues() {
+			if i%7 != 0 && !thorough {
+				continue
+			}
+			for _, u := range []rscp.Tag{t ^ (1 << 23), t + 1, t - 1, t ^ 0x00010000} {
+				if !u.IsATag() {
+					tagCase(cw, u, "neighbour-of-known-tag")
+				}
+			}
+		}
 		for _, t := range rscp.TagValues() {
 			if g.pick(6) == 0 || thorough {
 				tagStrCase(cw, t.String(), "known-name")
@@ -256,9 +269,12 @@ func coherentInputs(d rscp.DataType) []interface{} {
 	case rscp.Error:
 		return []interface{}{rscp.RscpError(0), rscp.RscpError(7), rscp.RscpError(4294967295)}
 	case rscp.Timestamp:
-		return []interface{}{time.Unix(0, 0).UTC(), time.Unix(5, 6).UTC(), time.Unix(-1, 999999999).UTC(), time.Unix(1<<40, 0).UTC()}
+		return []interface{}{time.Unix(0, 0).UTC(), time.Unix(5, 6).UTC(), time.Unix(-1, 999999999).UTC(), time.Unix(1<<40, 0).UTC(),
+			time.Unix(-62167219200, 0).UTC(), time.Unix(-62167219201, 999999999).UTC(), time.Unix(-62135596800, 0).UTC(), time.Unix(253402300800, 0).UTC(),
+			time.Unix(-1<<62, 0).UTC(), time.Unix(1<<62, 5).UTC()}
 	case rscp.ByteArray:
-		return []interface{}{"", "x", "xyz", strings.Repeat("\x00", 33)}
+		return []interface{}{"", "x", "xyz", strings.Repeat("\x00", 33), []byte{}, []byte{1, 2, 3}, []byte("abc"), json.RawMessage("ab"), net.IP{10, 0, 0, 1},
+			namedBytes{7, 8}, []rscp.DataType{rscp.Bool, rscp.Char8}}
 	case rscp.CString:
 		return []interface{}{"", "x", "xyz", strings.Repeat("a", 32), "\x00"}
 	case rscp.Bool:
@@ -292,10 +308,23 @@ func coherent(d rscp.DataType) (why string) {
 	for _, in := range coherentInputs(d) {
 		v, err := rscp.VerifNew(d, in)
 		if err != nil {
+			if _, isStr := in.(string); !isStr && d == rscp.ByteArray {
+				continue // the constructor may refuse inputs other than text; if it accepts them the result has to be coherent
+			}
 			return fmt.Sprintf("constructor fails for %v: %v", in, err)
 		}
 		if !rscp.VerifIsValidValue(d, v) {
-			return fmt.Sprintf("constructor returns %T which the validator rejects", v)
+			return fmt.Sprintf("constructor given %T returns %T which the validator rejects", in, v)
+		}
+		if src, ok := in.([]byte); ok && len(src) > 0 {
+			if out, ok := v.([]byte); ok && len(out) > 0 {
+				before := string(out)
+				src[0] ^= 0xff
+				if string(out) != before {
+					return "the built value shares the caller's buffer"
+				}
+				src[0] ^= 0xff
+			}
 		}
 		m := rscp.Message{Tag: 0x00800001, DataType: d, Value: v}
 		if err := rscp.VerifValidate(m); err != nil {
